@@ -424,7 +424,12 @@ end Adsb.Gen
         except rust2lean.Unsupported as e1: fns = stub(e1)
         try: crcfn = rust2lean.generate(read, only="crc")[1]
         except rust2lean.Unsupported as e2: crcfn = stub(e2).replace("source_outside_translated_fragment", "crc_source_outside_translated_fragment")
-    for name, txt in (("Fns.lean", fns), ("CrcFn.lean", crcfn)):
+    # the numeric formulas (haversine, Mercator projection) as terms generic in the number type (Gen/Formulas.lean)
+    try:
+        formulas = rust2lean.generate_formulas(read)
+    except rust2lean.Unsupported as e3:
+        formulas = stub(e3).replace("import Adsb.MiniRust", "import Adsb.TrackerF\nimport Adsb.App").replace("source_outside_translated_fragment", "formulas_outside_translated_fragment")
+    for name, txt in (("Fns.lean", fns), ("CrcFn.lean", crcfn), ("Formulas.lean", formulas)):
         pf = os.path.join(OUT, name)
         if not os.path.exists(pf) or open(pf).read() != txt: open(pf, "w").write(txt)
     # bit offsets of the plain deku structs (Gen/Layout.lean), with the widths of the custom readers taken from the translated functions
